@@ -23,6 +23,7 @@ RULE = (
     "least one value with a non-ASCII/control character or a nested container. Cases hashed for distinctness."
     ' Also: documents of several MiB (one huge string attribute / 4000 nodes) under three option bundles.'
     ' Also: cls= encoder classes, handles not at offset 0, positional JsonExporter arguments.'
+    ' Rounds 12-14: non-UTF text files, write-first, in-place option edits, bytes documents, write-then-export.'
 )
 ASSUMPTIONS = [
     "expected text = json.dumps(reference dictionary, **options) with the reference serialiser of C10; the effective maxlevel is the JsonExporter's when given, else the supplied DictExporter's",
